@@ -101,6 +101,8 @@ W = [
          stdout='[{"(_timeslice)":"2024-03-01T00:00:00+00:00","_count":2}]\n'),
     dict(id='minmax-exact', commit='b2f85e2', props=['C01', 'C08'], query='* | json | min(v), max(v)', input='{"v":9007199254740993}\n{"v":9007199254740995}\n',
          stdout='[{"_min":9007199254740993,"_max":9007199254740995}]\n'),
+    dict(id='regex-not-leftmost', commit='128c2e7', props=['C07'], query='* | parse regex "(?P<a>(?:ab)*bb)" noconvert', input='ababbb\n', json_lines=[{'a': 'ababbb'}]),
+    dict(id='regex-not-leftmost-group', commit='128c2e7', props=['C07'], query='* | parse regex "(?P<x1>12)*22"', input='121222\n', json_lines=[{'x1': 12}]),
     dict(id='wildcard-newline', commit='72583f8', props=['C07'], query='* | json | parse "start * end" from msg as x | fields x', input='{"msg":"start 1\\n2 end"}\n',
          json_lines=[{'x': '1\n2'}]),
     dict(id='dtparse-panic', commit='11f8b40', props=['C11'], query='* | parse "ts=*" as ts | parseDate(ts) as d | count', input='ts=2020-01-01\nts=12:30 -\nts=10:15:PM\nts=2020-01-02\n',
